@@ -136,6 +136,17 @@ def r13a(ctx, run):
         expect("an instantiation of a generic %s where another instantiation (same declaration uid, different underlying type) is expected" % kind,
                "nominal:%s:instantiation" % kind, a, mk(kind, 1, I64), False,
                "instantiations of one generic declaration share its uid; with different arguments they are different nominal types")
+    # nominal types over nominal types: `Altitude :: distinct Meters` is not `Meters` (nor the other way round), directly or through one constructor
+    for kind in ("Distinct", "EnumVariant", "ConcreteStruct"):
+        inner = mk(kind, 1, I32)
+        for cname, wrap in (("T", lambda t: t), ("?T", lambda t: Variant("Ty::Optional", {"sub_ty": t})),
+                            ("str!T", lambda t: Variant("Ty::ErrorUnion", {"error_ty": Variant("Ty::String"), "payload_ty": t}))):
+            outer = mk("Distinct", 2, wrap(inner))
+            expect("a %s where a distinct of %s of it is expected (`Altitude :: distinct %s`)" % (kind.lower(), cname, cname), "nominal-over-nominal:%s:%s" % (kind, cname), inner, outer, False,
+                   "a value of one nominal type is accepted where a DIFFERENT nominal type, declared on top of it, is expected")
+        outer = mk("Distinct", 2, inner)
+        expect("a distinct of a %s where that %s is expected" % (kind.lower(), kind.lower()), "nominal-over-nominal:%s:down" % kind, outer, inner, False,
+               "a value of the outer nominal type is accepted as the type it is declared on top of")
     # variant -> its own enum only
     v = mk("EnumVariant", 1, I32)
     own = Variant("Ty::Enum", {"uid": 50, "variants": [v, mk("EnumVariant", 2, I64)]})
